@@ -43,6 +43,11 @@ impl Ctx {
 
 fn main() {
     let args: Vec<String> = std::env::args().collect();
+    if args.get(1).map(|a| a == "--render-one").unwrap_or(false) {
+        std::panic::set_hook(Box::new(|_| {}));
+        run::render_one_from_stdin();
+        return;
+    }
     if args.len() < 4 {
         eprintln!("usage: harness <property> <quick|thorough> <seed> [replay-file]");
         std::process::exit(2);
@@ -76,6 +81,7 @@ fn main() {
             std::process::exit(2);
         }
     }
+    let _ = std::fs::remove_dir_all(std::env::temp_dir().join(format!("liquid-verif-harness-{}", std::process::id())));
     let only: Option<usize> = args.iter().position(|a| a == "--only").and_then(|i| args.get(i + 1)).and_then(|s| s.parse().ok());
     let stdout = std::io::stdout();
     let mut w = std::io::BufWriter::new(stdout.lock());
